@@ -252,7 +252,7 @@ def c_decoders(tier):
     out = []
     for dw in (32, 64):
         for ok in ("zero", "mid", "top"):
-            out += c_decoder_window([2, 3, 12, 16, 31] if tier == "quick" else list(range(2, 32)), dw, ok)["results"]
+            out += c_decoder_window(list(range(2, 33)), dw, ok)["results"]
     return dict(results=out, functions=["litex.soc.integration.soc.SoCRegion.decoder"])
 
 def c_decoder_align(tier):
